@@ -51,6 +51,7 @@ func e1Specs(prop, tier string) []engines.E1Spec {
 			kd = 5
 		}
 		specs = append(specs, engines.E1Spec{Name: "K-kind-reuse/none/rs20", Cfg: cfgNone, Alphabet: engines.KindReuseAlphabet(), Depth: kd, Oracles: or})
+		specs = append(specs, engines.E1Spec{Name: "M-bigmove/none/rs20", Cfg: cfgNone, Setup: engines.BigMoveSetup(), Alphabet: engines.BigMoveAlphabet(), Depth: map[bool]int{true: 3, false: 4}[tier == "quick"], Oracles: or})
 		if prop == "C02" {
 			d := 2
 			if tier != "quick" {
@@ -177,6 +178,15 @@ func e1Specs(prop, tier string) []engines.E1Spec {
 			out = append(out, engines.E1Spec{Name: fmt.Sprintf("H/%q/%s/wc=memory/wpir", "hello", ops.FlagString(fl)), Cfg: rig.Config{RecordSize: 1, WriteCache: "memory", WPIR: true}, Level: "handle",
 				HInit: "hello", HFlags: fl, Alphabet: engines.HandleAlphabet(5, fl&os.O_APPEND != 0), Depth: depth, Oracles: or})
 		}
+		// a pipeline whose encoding of an empty payload is not empty (truncating to nothing, empty rewrites)
+		gzd := 2
+		if tier != "quick" {
+			gzd = 3
+		}
+		out = append(out, engines.E1Spec{Name: "H/hello/RDWR/gzip/wc=memory", Cfg: rig.Config{RecordSize: 1, Compression: "gzip"}, Level: "handle",
+			HInit: "hello", HFlags: os.O_RDWR, Alphabet: engines.HandleAlphabet(5, false), Depth: gzd, Oracles: or},
+			engines.E1Spec{Name: "H/hello/RDWR|TRUNC/lz4+age/wc=file", Cfg: rig.Config{RecordSize: 1, Compression: "lz4", Encryption: "age", WriteCache: "file"}, Level: "handle",
+				HInit: "hello", HFlags: os.O_RDWR | os.O_TRUNC, Alphabet: engines.HandleAlphabet(5, false), Depth: gzd, Oracles: or})
 		if tier != "quick" {
 			out = append(out, engines.E1Spec{Name: "H/hello/RDWR/gz+age+minisign", Cfg: rig.Config{RecordSize: 20, Compression: "gzip", Encryption: "age", Signature: "minisign"}, Level: "handle",
 				HInit: "hello", HFlags: os.O_RDWR, Alphabet: engines.HandleAlphabet(5, false), Depth: 3, Oracles: or})
@@ -304,17 +314,33 @@ func e1Specs(prop, tier string) []engines.E1Spec {
 	case "C12":
 		names := engines.WNames
 		out := []engines.E1Spec{}
-		max, depth := 2, 1
+		max := 2
 		if tier != "quick" {
-			max, depth = 3, 2
+			max = 3
 		}
 		subsets := engines.WSubsets(names, max)
-		for i, setup := range engines.WSetups(names, max) {
-			// the calls range over the names that exist in this initial state plus two that do not (one of them a name that a
-			// LIKE pattern of an existing name would match)
-			present := append([]string{}, subsets[i]...)
-			al := engines.WAlphabet(append(present, "zz", "aXb"))
-			out = append(out, engines.E1Spec{Name: fmt.Sprintf("W%d%v/none/rs20", i, subsets[i]), Cfg: cfgNone, Setup: setup, Alphabet: al, Depth: depth, Oracles: or})
+		setups := engines.WSetups(names, max)
+		// thorough: every initial state with up to three populated directories at depth 1 first (cheap, always completes),
+		// then the initial states with one or two directories at depth 2 as far as the budget allows
+		for _, depth := range []int{1, 2} {
+			if depth == 2 && tier == "quick" {
+				break
+			}
+			for i, setup := range setups {
+				if depth == 2 && len(subsets[i]) > 2 {
+					continue
+				}
+				// the calls range over the names that exist in this initial state plus two that do not (one of them a name that a
+				// LIKE pattern of an existing name would match)
+				present := append([]string{}, subsets[i]...)
+				al := engines.WAlphabet(append(present, "zz", "aXb"))
+				out = append(out, engines.E1Spec{Name: fmt.Sprintf("W%d%v/none/rs20/depth%d", i, subsets[i], depth), Cfg: cfgNone, Setup: setup, Alphabet: al, Depth: depth, Oracles: or})
+				if depth == 1 && (tier != "quick" || i%2 == 0) {
+					// the same calls on an instance whose index was rebuilt from the tape (names stored relative to the root)
+					rs := append(append([]ops.Op{}, setup...), ops.Op{K: "rebuild"})
+					out = append(out, engines.E1Spec{Name: fmt.Sprintf("W%d%v/none/rs20/rebuilt-index/depth1", i, subsets[i]), Cfg: cfgNone, Setup: rs, Alphabet: al, Depth: 1, Oracles: or})
+				}
+			}
 		}
 		return out
 	}
@@ -355,6 +381,9 @@ func runCheck(prop, tier string, seed int64, workers int) int {
 	budget := 4 * time.Minute
 	if tier == "thorough" {
 		budget = 25 * time.Minute
+		if prop == "C12" {
+			budget = 40 * time.Minute
+		}
 	}
 	deadline := time.Now().Add(budget)
 	states, trans, pruned := 0, 0, 0
@@ -428,11 +457,12 @@ func runC10(rep *engines.Report, p *pool.Pool, tier string) int {
 	rep.Level = "fault_enumeration"
 	// rejected calls include an unsupported compression level: every write is refused after the drive has been acquired
 	badLevel := rig.Config{RecordSize: 20, Compression: "gzip", Level: "no-such-level"}
-	specs := []engines.E3Spec{{Name: "F/none/rs20", Cfg: cfgNone, Alphabet: engines.FaultAlphabet(false), Finals: engines.InitFinals(), Depth: 3},
+	specs := []engines.E3Spec{{Name: "F/none/rs20", Cfg: cfgNone, Alphabet: engines.FaultAlphabet(false), Finals: engines.InitFinals(), Depth: 4},
 		{Name: "F/gzip+unsupported-level/rs20", Cfg: badLevel, Alphabet: engines.FaultAlphabet(false), Depth: 2}}
 	budget := 4 * time.Minute
 	if tier != "quick" {
 		specs = []engines.E3Spec{
+			{Name: "F/none/rs20", Cfg: cfgNone, Alphabet: engines.FaultAlphabet(false), Finals: engines.InitFinals(), Depth: 4},
 			{Name: "F-full/none/rs20", Cfg: cfgNone, Alphabet: engines.FaultAlphabet(true), Finals: engines.InitFinals(), Depth: 3},
 			{Name: "F/none/rs1/wc=file", Cfg: rig.Config{RecordSize: 1, WriteCache: "file"}, Alphabet: engines.FaultAlphabet(false), Depth: 4},
 			{Name: "F/gzip+age+minisign/rs1/wc=file", Cfg: rig.Config{RecordSize: 1, Compression: "gzip", Encryption: "age", Signature: "minisign", WriteCache: "file"}, Alphabet: engines.FaultAlphabet(false), Finals: engines.InitFinals(), Depth: 2},
@@ -585,8 +615,8 @@ func runC03(rep *engines.Report, p *pool.Pool, tier string) int {
 							}
 							// every content once per write pattern: rotate the pattern assignment over configurations so that each
 							// (length class, pattern) pair occurs under every pipeline family
-							pats := []int{0, 1, 2, 3}
-							rot := len(jobs) % 4
+							pats := []int{0, 1, 2, 3, 4}
+							rot := len(jobs) % 5
 							pats = append(pats[rot:], pats[:rot]...)
 							jobs = append(jobs, &engines.C03Job{Cfg: rig.Config{Compression: c, Level: l, Encryption: e, Signature: s, RecordSize: rs, WriteCache: wc}, Contents: contents, Patterns: pats})
 						}
@@ -719,14 +749,21 @@ func runC08(rep *engines.Report, p *pool.Pool, tier string) int {
 		policy, shards = "all", 64
 		budget = 25 * time.Minute
 	}
+	// order: the structured forgeries of every pipeline first, then the byte alterations shard by shard across all
+	// pipelines (shard s = the alterations whose number is s modulo the shard count), so that a budget cut leaves every
+	// pipeline with the same residue classes covered instead of leaving the last pipelines untouched
 	jobs := []interface{}{}
+	cfgOf := func(x pl) rig.Config {
+		return rig.Config{Signature: x.sig, Encryption: x.enc, Compression: x.comp, RecordSize: 20}
+	}
 	for _, x := range pls {
-		cfg := rig.Config{Signature: x.sig, Encryption: x.enc, Compression: x.comp, RecordSize: 20}
 		if x.enc == "" {
-			jobs = append(jobs, &engines.C08Job{Cfg: cfg, Policy: "forge", NShards: 1})
+			jobs = append(jobs, &engines.C08Job{Cfg: cfgOf(x), Policy: "forge", NShards: 1})
 		}
-		for sh := 0; sh < shards; sh++ {
-			jobs = append(jobs, &engines.C08Job{Cfg: cfg, Policy: policy, Shard: sh, NShards: shards})
+	}
+	for sh := 0; sh < shards; sh++ {
+		for _, x := range pls {
+			jobs = append(jobs, &engines.C08Job{Cfg: cfgOf(x), Policy: policy, Shard: sh, NShards: shards})
 		}
 	}
 	deadline := time.Now().Add(budget)
@@ -782,7 +819,7 @@ func runC08(rep *engines.Report, p *pool.Pool, tier string) int {
 	rep.Coverage["rule"] = "per pipeline: a tape written by the real write path (dir, files, content update, rename, header-shaped payload, delete) while recording every header the writer signed and the content signed under each; alterations: policy 'all' = every byte position x {b^0x01, b^0x80, 0x00}; 'quick' = every second non-zero byte and every fifth zero byte of header/PAX blocks and every 16th payload byte; 'forge' = the structured forgery list per record (edited embedded header with kept/removed/empty/non-base64/garbage/wrong-packet signature, re-encoded header, swapped signatures, second key, outer size, replaced payload, appended plain/half-wrapped records). Each altered tape is rebuilt with the real verify callbacks; every accepted header must equal a signed one, every restorable file must return the content signed under its header or an error, both through recovery.Fetch at the indexed position and through the file API (Open, Read to EOF, Close). distinct_nontrivial = distinct (pipeline, record kind, part of the record / forgery)."
 	rep.Assumptions = []string{"single alteration per tape", "structured forgeries only on unencrypted tapes (encrypted ones are covered by byte alterations)", "tape = regular file"}
 	if skipped > 0 {
-		rep.Notes = append(rep.Notes, fmt.Sprintf("budget reached: %d of %d batches not executed", skipped, len(jobs)))
+		rep.Notes = append(rep.Notes, fmt.Sprintf("budget reached: %d of %d batches not executed; batches are ordered forgeries first, then byte alterations shard-major (shard s of %d = alterations number s modulo %d, for every pipeline in turn), so about the first %d residue classes are covered for every pipeline", skipped, len(jobs), shards, shards, (len(jobs)-skipped-len(pls))/len(pls)))
 	}
 	return rep.Finish()
 }
